@@ -173,6 +173,18 @@ def flightInter (st : Flight.St) : List Flight.Run → Nat → List String
     (`shared` = some process-wide synchronisation object is used on the run path), "?" otherwise;
     complete = every call of every run has returned. -/
 def handleInFlight (c : Json) : JE Json := do
+  if (J.strD c "hold" "") != "" then
+    -- variant hold-at: run 0 is parked inside user code of its own; {"hold":where,"toks":[..],"sched":[run indices]}
+    let toks ← J.strList c "toks"
+    let sched ← J.natList c "sched"
+    let n := toks.length
+    let st := Hold.exec Expected.C09.lockOnCompiledObject n 0 sched Hold.St.init
+    let al := toks.map fun t => t ++ "|a|b#1"
+    let inter := (toks.zipIdx).map fun (t, i) => if 2 ≤ st.pc i then t ++ "|a|b#1" else "?"
+    return Json.mkObj [
+      ("interleaved", J.mkStrs inter),
+      ("alone", J.mkStrs al),
+      ("complete", Json.bool ((List.range n).all fun i => 2 ≤ st.pc i))]
   let runs ← (← J.arr c "runs").mapM fun j => do
     pure ({ tok := (← J.str j "tok"), calls := J.natD j "calls" 1, inner := J.natD j "inner" 0 } : Flight.Run)
   let sched ← J.natList c "sched"
